@@ -1052,6 +1052,8 @@ func (w *world) unknownRef() ref {
 	return ref{aid: a.ID, iid: 0, why: "iid-0"}
 }
 
+func targetFor(list []ref) string { return target(list) }
+
 func target(list []ref) string {
 	var b strings.Builder
 	b.WriteString("/characteristics?id=")
@@ -1566,6 +1568,40 @@ func (w *world) put(ci int, ws []write) {
 
 // ---------------------------------------------------------------------------------------- one database
 
+// abandonAnswer: a third connection of a verified controller asks for the whole database (or for many values) and leaves
+// before or while the answer is written.  What that aborted answer leaves behind in the accessory must not show in the
+// answers the other controllers get (they are compared value by value as always).
+func (w *world) abandonAnswer(rnd *rand.Rand) {
+	c, err := refctl.Dial(w.app.Addr)
+	if err != nil {
+		return
+	}
+	c.Timeout = 20 * time.Second
+	if _, err := c.PairVerify(w.ids[rnd.Intn(2)], w.ltpk, w.accID, nil); err != nil {
+		c.Close()
+		return
+	}
+	target := "/accessories"
+	if rnd.Intn(3) == 0 && len(w.cells) > 0 {
+		var l []ref
+		for i := 0; i < 40 && i < len(w.cells); i++ {
+			cc := w.cells[rnd.Intn(len(w.cells))]
+			l = append(l, ref{aid: cc.aid(), iid: cc.iid(), c: cc})
+		}
+		target = targetFor(l)
+	}
+	c.Send(refctl.BuildRequest("GET", target, "", nil))
+	if rnd.Intn(3) > 0 {
+		time.Sleep(time.Duration(rnd.Intn(500)) * time.Microsecond)
+	}
+	if rnd.Intn(4) == 0 {
+		c.CloseGraceful()
+	} else {
+		c.Close()
+	}
+	run.Count("answers_abandoned_by_a_third_connection", 1)
+}
+
 func (w *world) allowLong() bool { return len(w.cells) < 600 }
 
 func (w *world) start(base string) bool {
@@ -1739,6 +1775,9 @@ func (w *world) runRounds() {
 					dup = true
 					run.Count("get_requests_with_repeated_id", 1)
 				}
+			}
+			if rnd.Intn(8) == 0 {
+				w.abandonAnswer(rnd)
 			}
 			w.get(rnd.Intn(2), list, dup, seen)
 			if w.dead {
@@ -2024,6 +2063,7 @@ func main() {
 	r.Floor("callbacks_checked", int(r.Counter("callbacks_checked")), 300)
 	r.Floor("put_entries_for_non_existing_ids", int(r.Counter("put_entries_for_non_existing_ids")), 3)
 	r.Floor("formats", len(formatsSeen()), 7)
+	r.Floor("answers_abandoned_by_a_third_connection", int(r.Counter("answers_abandoned_by_a_third_connection")), 40)
 	r.Count("float_values_next_to_the_current_value", int(floatNeighbours.Load()))
 	r.Floor("float_values_next_to_the_current_value", int(floatNeighbours.Load()), 30)
 	r.Count("integer_writes_spelled_with_exponent_or_fraction", int(intSpellings.Load()))
